@@ -110,4 +110,78 @@ theorem struct_core (O : Oracles) (opts : DeserOpts) (c : ClassOpts) (fields : L
         rw [extrasOf_append_fields c _ _ args (hsub args hna), extrasOf_append_fields c _ _ args' (hsub args' hnl)]
         simp
 
+/-! ### StructureReference (inline class) -/
+
+theorem c06_kwOfDict_pairs : ∀ (args : List (String × PyVal)),
+    kwOfDict (args.map fun a => (PyVal.str a.1, a.2)) = some args
+  | [] => rfl
+  | (k, v) :: rest => by
+    have := c06_kwOfDict_pairs rest
+    simp only [List.map_cons, kwOfDict, this, Option.map_some]
+
+theorem c06_inline_validate (O : Oracles) (c : ClassOpts) (fields : List (String × FieldDecl))
+    (defaults : List (String × PyVal)) (hinl : c.inline = true) (args : List (String × PyVal)) :
+    validate O (.struct c fields defaults) (.dict (args.map fun a => (PyVal.str a.1, a.2)))
+      = vConstruct c (fields.map (·.1)) args (validateFields O c defaults args fields) := by
+  simp [validate, hinl, vInline, c06_kwOfDict_pairs]
+
+theorem c06_inline_lift_iff (O : Oracles) (opts : DeserOpts) (c : ClassOpts) (fields : List (String × FieldDecl))
+    (defaults : List (String × PyVal)) (kvs : List (PyVal × PyVal)) (doc : List (String × PyVal))
+    (hdoc : kwOfDict kvs = some doc) (hinl : c.inline = true) (r : PyVal) :
+    liftThen O opts (.struct c fields defaults) (.dict kvs) = .ok r
+      ↔ (match liftFields O opts c doc fields with
+          | none => (.error .valueErr : R PyVal)
+          | some args =>
+            vConstruct c (fields.map (fun (a : String × FieldDecl) => a.1)) (deserExtras opts c (fields.map (fun (a : String × FieldDecl) => a.1)) doc ++ args)
+              (validateFields O c defaults (deserExtras opts c (fields.map (fun (a : String × FieldDecl) => a.1)) doc ++ args) fields)) = .ok r := by
+  unfold liftThen
+  simp only [lift, hdoc, Option.bind_some]
+  cases hl : liftFields O opts c doc fields with
+  | none => simp
+  | some args =>
+    simp only [Option.bind_some]
+    cases hc : vConstruct c (fields.map (fun (a : String × FieldDecl) => a.1)) (deserExtras opts c (fields.map (fun (a : String × FieldDecl) => a.1)) doc ++ args)
+        (validateFields O c defaults (deserExtras opts c (fields.map (fun (a : String × FieldDecl) => a.1)) doc ++ args) fields) with
+    | error e => simp
+    | ok y => simp only [hinl, if_true, c06_inline_validate O c fields defaults hinl, hc]
+
+theorem c06_inline_deser_iff (O : Oracles) (opts : DeserOpts) (c : ClassOpts) (fields : List (String × FieldDecl))
+    (defaults : List (String × PyVal)) (kvs : List (PyVal × PyVal)) (doc : List (String × PyVal))
+    (hdoc : kwOfDict kvs = some doc) (hinl : c.inline = true) (r : PyVal) :
+    deserThen O opts (.struct c fields defaults) (.dict kvs) = .ok r
+      ↔ (bindE (bindE (deserFields O opts c doc fields false)
+          (fun args => .ok (deserExtras opts c (fields.map (·.1)) doc ++ args))) fun args =>
+        vConstruct c (fields.map (·.1)) args (validateFields O c defaults args fields)) = .ok r := by
+  unfold deserThen
+  simp only [deser, PyVal.isNone, Bool.false_and, Bool.false_eq_true, if_false, hinl, if_true, dInline, hdoc]
+  cases hT : bindE (deserFields O opts c doc fields false)
+      (fun args => (.ok (deserExtras opts c (fields.map (·.1)) doc ++ args) : R _)) with
+  | error e => simp
+  | ok args =>
+    simp only [bindE_ok]
+    cases hc : vConstruct c (fields.map (·.1)) args (validateFields O c defaults args fields) with
+    | error e => simp
+    | ok y => simp only [bindE_ok, c06_inline_validate O c fields defaults hinl, hc]
+
+/-- StructureReference: `deserialize_structure_reference` validates the keyword arguments it built and hands
+    them on as a dict, which the field's `__set__` validates once more; the documented lifting is the dict of
+    lifted arguments (when the inline class accepts them).  Both sides therefore succeed exactly when the
+    inline class's constructor does, with what it builds -/
+theorem inline_okEq (O : Oracles) (opts : DeserOpts) (c : ClassOpts) (fields : List (String × FieldDecl))
+    (defaults : List (String × PyVal)) (kvs : List (PyVal × PyVal)) (doc : List (String × PyVal))
+    (hdoc : kwOfDict kvs = some doc) (hinl : c.inline = true)
+    (core : OkEq
+      (bindE (bindE (deserFields O opts c doc fields false)
+          (fun args => .ok (deserExtras opts c (fields.map (·.1)) doc ++ args))) fun args =>
+        vConstruct c (fields.map (·.1)) args (validateFields O c defaults args fields))
+      (match liftFields O opts c doc fields with
+        | none => .error .valueErr
+        | some args =>
+          vConstruct c (fields.map (·.1)) (deserExtras opts c (fields.map (·.1)) doc ++ args)
+            (validateFields O c defaults (deserExtras opts c (fields.map (·.1)) doc ++ args) fields))) :
+    OkEq (deserThen O opts (.struct c fields defaults) (.dict kvs))
+      (liftThen O opts (.struct c fields defaults) (.dict kvs)) := fun r =>
+  (c06_inline_deser_iff O opts c fields defaults kvs doc hdoc hinl r).trans
+    ((core r).trans (c06_inline_lift_iff O opts c fields defaults kvs doc hdoc hinl r).symm)
+
 end Typedpy
